@@ -23,7 +23,7 @@ _pbase.threading = types.SimpleNamespace(RLock=e3.CoopRLock, Lock=e3.CoopRLock)
 
 ID = "C20"
 LEVEL = "model_checking"
-RULE = ("schedules: for each of 8 scenarios (first parse of classes with pending forward references - module level and "
+RULE = ("schedules: for each of 10 scenarios (first parse of classes with pending forward references - module level and "
         "function-local; first parse of mutually recursive classes from both ends; conversions racing a registration in "
         "the shared converter registry; first calls of a decorated function with forward-referenced types; concurrent "
         "decoration of one function) every interleaving of 2 threads with at most 1 preemption (quick); of 2 threads with at "
@@ -121,6 +121,31 @@ class Tag(str, Rule):
     max_length = 3
 '''
 
+SRC_TYPE = '''
+from utmc.ns import *
+class Shelf(Schema):
+    kind: Type['Cover']
+    cover: Optional['Cover'] = None
+    kinds: List[Type['Cover']] = Field(default_factory=list)
+class Cover(Schema):
+    v: int = 0
+class Hard(Cover):
+    pass
+'''
+SRC_TYPE_LOCAL = '''
+from utmc.ns import *
+def make():
+    class Shelf(Schema):
+        kind: Type['Cover']
+        cover: Optional['Cover'] = None
+    class Cover(Schema):
+        v: int = 0
+    class Hard(Cover):
+        pass
+    return Shelf, Cover, Hard
+Shelf, Cover, Hard = make()
+'''
+
 A_IN = {"v": "1", "bs": [{"w": "2", "a": {"v": 3}}], "ob": {"w": 4}}
 B_IN = {"w": "5", "a": {"v": 6, "bs": [{"w": 7}]}, "more": {"k": {"w": 8}}}
 B_LOCAL_IN = {"w": "5", "a": {"v": 6, "bs": [{"w": 7}]}}
@@ -148,6 +173,11 @@ SCENARIOS = {
     # a forward reference that also carries Field constraints: the window between "evaluated" and "constrained type built"
     "constrained-forward-ref": (SRC_CONSTRAINED, ["Order(amount='50', tags=['ab'])", "Order(amount=500)", "Order(amount=5, tags=['a', 'b', 'c'])"],
                                 "Order(amount=101)"),
+    # Type['X']: a half-resolved field type is visible at once (issubclass against a ForwardRef)
+    "type-ref-first-parse": (SRC_TYPE, ["Shelf(kind=Hard).kind.__name__", "Shelf(kind=Cover, cover={'v': '1'}, kinds=[Hard]).cover.v",
+                                        "Shelf(kind=Hard).kind.__name__"], "Shelf(kind=Cover, kinds=[Hard, Cover]).kind.__name__"),
+    "type-ref-first-parse-local": (SRC_TYPE_LOCAL, ["Shelf(kind=Hard).kind.__name__", "Shelf(kind=Cover, cover={'v': '1'}).cover.v",
+                                                    "Shelf(kind=Hard).kind.__name__"], "Shelf(kind=Cover).kind.__name__"),
     "registry-race": (SRC_REG, ["type_transform(1, Sub)", "type_transform(2, Sub)", "utype.register_transformer(Sub)(new_converter) and None"],
                       "type_transform(2, Sub)"),
 }
@@ -305,7 +335,7 @@ def run_shard(shard, tier):
                 raise RuntimeError(f"harness error: schedule {ex.choices} of {name} failed once and passed on replay")
             for kind, msg in problems[:2]:
                 fp = f"C20|{name}|{kind}"
-                acc.violation(fp, f"scenario {name}, threads {[calls[t] for t in order]}, schedule {ex.choices} "
+                acc.violation(fp, f"scenario {name}, threads {[calls[t] for t in order]}, schedule (run lengths [choice, count]) {_rle(ex.choices)} "
                                   f"({switches} switches, {ex.preemptions_before(len(ex.points))} preemptions): {msg}",
                               _script(name, nthreads, ex.choices))
         elif acc.states % 53 == 0:
